@@ -178,7 +178,7 @@ func c03Check(c *Ctx, spec *gen.TableSpec, decos []namedDeco, st *stage, sample 
 	if st != nil {
 		// one wrapper, created before the table is built, renders the partial table, the complete
 		// table with items in their earlier state, and then (judged) the final table under every decoration
-		b = spec.BuildStagedN(t0, st.points(), func() { reused.Render() })
+		b = spec.BuildStagedN(t0, st.points(), func() { o, _ := reused.Render(); c.Keep(o, "an earlier Render through the same wrapper") })
 		reused.SetDecoration(decos[len(decos)-1].d).Render()
 		b.Finalize()
 		c.Rec.Count("staged_cases(render, change, render again through the same wrapper)", 1)
